@@ -29,6 +29,9 @@ var engines = map[string]func(*engine.Ctx){
 	"C11": engine.C11,
 	"C12": engine.C12,
 	"C13": engine.C13,
+	"C14": engine.C14,
+	"C15": engine.C15,
+	"C16": engine.C16,
 	"C17": engine.C17,
 	"C18": engine.C18,
 }
